@@ -1,7 +1,7 @@
 (* C02 - The output is exactly the transitive closure of the inputs.  Statements and `exact` only. *)
 From Coq Require Import List String Bool NArith.
 From RC Require Import lib.Pep440 lib.Name model.Merge model.Graph model.Solver model.Explain model.Check
-                       proofs.CheckP proofs.ReachP proofs.WitnessSolver proofs.SolverStatements.
+                       proofs.CheckP proofs.ReachP proofs.WitnessSolver proofs.SolverStatements proofs.SolvedP.
 Import ListNotations.
 Open Scope string_scope.
 
@@ -26,14 +26,47 @@ Theorem C02_closure_checker_sound :
 Proof. exact closed_b_sound. Qed.
 Print Assumptions C02_closure_checker_sound.
 
-(* The full statement is FALSE of the faithful model: a run can succeed with an input's project
-   left unsolved and not emitted (a node invalidated while it is on the active path). *)
-Theorem C02_refuted_unsolved_in_output :
+(* Closure, one half, for EVERY run (all universes, inputs, repository stacks, walk-back histories): a compile that
+   succeeds leaves no project that is reachable from the inputs without a solution, so nothing an input or an emitted
+   distribution links to is missing from the output.  (Constraint files that are added back into the result are left
+   out of the statement: it speaks of the graph the final check has seen.) *)
+Theorem C02_success_leaves_no_required_project_unsolved :
+  forall fuel e u inputs cons rc md ob_all ob extras g roots,
+  cons = None \/ rc = true ->
+  perform_compile_stack_x fuel e u inputs cons rc md ob_all ob extras = COk g roots ->
+  forall id, In id (visit_nodes g roots) -> unsolved g id = false.
+Proof. exact compile_success_all_required_solved. Qed.
+Print Assumptions C02_success_leaves_no_required_project_unsolved.
+
+(* ... and when that final check fails, the failure names the merged constraints of a required, unsolved project *)
+Theorem C02_final_check_failure_is_located :
+  forall e roots g nm sp g', check_solved e roots (SOk g) = SNoCand g' nm sp ->
+  g' = g /\ exists id spec, In id (visit_nodes g roots) /\ unsolved g id = true /\
+                            build_constraints e g id = Rok spec /\ nm = safe_name (rname spec) /\ sp = rspec spec.
+Proof. exact check_solved_failure_is_located. Qed.
+Print Assumptions C02_final_check_failure_is_located.
+
+(* (after /repo 88940d5) the former counter-example to closure - a run that succeeded with an input's project left
+   unsolved and not emitted - now fails honestly on a>=2.1 *)
+Theorem C02_unsolved_in_output_now_fails_honestly :
   match w_c02_unsolved_in_output_run 100 with
-  | COk g roots => (pin_of g "a", emitted_keys g roots, closed_b g roots)
-  | _ => (None, [], true) end = (Some None, ["b"], false).
-Proof. exact c02_unsolved_witness. Qed.
-Print Assumptions C02_refuted_unsolved_in_output.
+  | CNoCand _ nm sp => (nm, List.length sp) | COk _ _ => ("<ok>", 0) | CFatal _ => ("<fatal>", 0) end = ("a", 1).
+Proof. exact c02_unsolved_now_fails_witness. Qed.
+Print Assumptions C02_unsolved_in_output_now_fails_honestly.
+
+(* Minimality is FALSE of the faithful model: (1) c-3.0 requests b[y], b[y] requires a, a's requirement invalidates
+   c-3.0 and c-1.1 does not request the extra any more - the link b -> a stays and a is emitted; (2) an extra requested
+   only by a project that is solved because a constraint file mentions it pulls that extra's dependency into the
+   output. *)
+Theorem C02_refuted_leftover_and_constraint_extra :
+  match w_c02_leftover_extra_dependency_run 100 with
+  | COk g roots => (emitted_keys g roots, pin_of g "c", minimal_b w_c02_leftover_extra_dependency_env g roots)
+  | _ => ([], None, true) end = (["f"; "b"; "c"; "a"], Some (Some "1.1"), false) /\
+  match w_c02_constraint_extra_leak_run 100 with
+  | COk g roots => (emitted_keys g roots, minimal_b w_c02_constraint_extra_leak_env g roots)
+  | _ => ([], true) end = (["b"; "a"], false).
+Proof. split; [exact c02_leftover_witness|exact c02_constraint_extra_leak_witness]. Qed.
+Print Assumptions C02_refuted_leftover_and_constraint_extra.
 
 (* (after the /repo fix that combines the reasons of one edge) the former second counter-example - a requested
    extra dropped when the edge reason was overwritten - now expands b with extras y and z, so b[y]'s dependency
